@@ -587,3 +587,6 @@ PROPS["C12"]["rule"] += (" Expiry part: facts and rules that expire at the next 
                          "instant in real time; no crash, no race report, every read gives the written value or not-found and "
                          "never the item again after not-found, afterwards the expired items and their dependents are gone from "
                          "memory and storage and the items without expiry are untouched.")
+PROPS["C10"]["rule"] += (" Rule ids are also overwritten by scheduled rules; with a parent, the parent location itself is disabled and "
+                         "enabled again: while it is disabled none of its rules may be among the rules an event sent to the child "
+                         "evaluates (what else such an event does is not specified).")
